@@ -153,7 +153,14 @@ def make_field(cc, node, built, path):
             getter = glb["getter"]
 
         setter = None
-        if p.get("setter"):
+        if p.get("forward"):
+            k1, k2 = p["forward"]
+
+            def setter(cfg, value, k1=k1, k2=k2, path=path):
+                built.log.append(("setter", path, id(cfg), value))
+                cfg[k1] = value[0]
+                cfg[k2] = value[1]
+        elif p.get("setter"):
             def setter(cfg, value, path=path):
                 built.log.append(("setter", path, id(cfg), value))
 
@@ -270,6 +277,8 @@ def _fill(cc, schema, node, built, prefix, via=""):
                 _use_standalone(cc, sub)
                 put(key, sub)
                 continue
+            if style == "auto" and hasattr(type(here()), key):
+                style = "getitem"  # attribute access would find the method of that name
             if style == "auto":
                 sub = getattr(here(), key)
             elif style in ("getitem", "dotted"):
